@@ -50,6 +50,20 @@ RULE_PATTERNS = [(re.compile(p), r) for p, r in [
     (r'^while loop condition type is', 'whileNotBool'),
     (r'^types on conditional expression do not match', 'condBranches'),
     (r'^arrays are different', 'branchArrays'),
+    (r'^ranges are different', 'branchRanges'),
+    (r'^slices are different', 'branchSlices'),
+    (r'^touple is not well formed', 'tupleForm'),
+    (r'^touples can be dereferenced in 1 dimension', 'tupleDerefDims'),
+    (r'^touples can be dereferenced with int type', 'tupleDerefType'),
+    (r'^touples index .* out of bounds', 'tupleIndex'),
+    (r'^touples index not proper', 'tupleIndexProper'),
+    (r'^incorrect dimesions in array', 'arrayShape'),
+    (r'^expected range from of type int', 'rangeFrom'),
+    (r'^expected range to of type int', 'rangeTo'),
+    (r'^incorrect number of dimensions passed to slice', 'sliceDims'),
+    (r'^incorrect number of dimensions passed to deref', 'derefDims'),
+    (r'^incorrect types of arguments passed to deref', 'derefIndex'),
+    (r'^cannot compose type', 'pipeNotFunc'),
     (r'^functions are different', 'branchFuncs'),
     (r'^incorrect return type in function', 'returnType'),
     (r'^expression is .* not enum name', 'matchNotEnum'),
@@ -277,9 +291,15 @@ def build_cases(seed, nprog, size, stats):
         lay = rng.next()
         src, sx = G.render(p, Rng(lay))
         cases.append(dict(kind="P", rule=None, src=src, sx=sx, seed=s, ctx=[], exp_line=None, exp_rule=None, note=""))
+        # which of the D11 constructs this program contains (shares reported in the evidence)
+        for tag, pat in (("tuples", "(tuple "), ("projections", "(proj "), ("ranges", "(range "), ("slices", "(slice "), ("forin", "(forin "),
+                         ("pipes", "(pipe "), ("matches", "(match "), ("nd_arrays", "(sub"), ("tuple_types", "(tup ")):
+            if pat in sx:
+                stats["P_with_" + tag] = stats.get("P_with_" + tag, 0) + 1
         for k, v in g.stats.items():
             stats["gen_" + k] = stats.get("gen_" + k, 0) + v
-        for rule in G.RULES + ["call_kind_inner_fn", "call_kind_inner_var", "call_kind_result_var", "match_empty"]:
+        for rule in G.RULES + ["call_kind_inner_fn", "call_kind_inner_var", "call_kind_result_var", "match_empty",
+                               "slice_assign_let", "pipe_tuple_const_to_var"]:
             g2, p2, rng2 = gen_case(s, size)
             mrng = Rng(s ^ (hash_str(rule) & 0xFFFFFFFF))
             mu = G.Mutator(g2, p2, mrng)
@@ -325,6 +345,10 @@ CTX_KINDS = ['top', 'nested', 'closure', 'lc', 'arm', 'catch', 'if', 'while', 'f
 # pinned tree; repaired in /repo 186dfd9, so an ACCEPTED mutant of that rule is an ordinary VIOLATION again.)
 KNOWN = {
     'match_empty': "accept:match_missing:empty guard list `match e { }` is never checked for exhaustiveness",
+    # the generated forms of corpus/tc_known (theorems `…_accepted_counterexample` of Props/C06.lean): the SAME findings, so the
+    # same signatures as the corpus files (known_findings.json)
+    'slice_assign_let': "accepted:const_lost_through_slice_assign",
+    'pipe_tuple_const_to_var': "accepted:const_tuple_members_to_var_params",
 }
 
 
